@@ -732,6 +732,8 @@ pub fn g8_candidate(rng: &mut Rng) -> Option<(ChessBoard, String)> {
     let mut used_dir = [false; 8];
     let n_motifs = rng.range(1, 4);
     let mut label: Vec<&'static str> = Vec::new();
+    // squares strictly between the king and a checking slider (where an own man could interpose)
+    let mut check_line: Vec<usize> = Vec::new();
     let pawn_ok = |s: usize| -> bool { (8..56).contains(&s) };
     for _ in 0..n_motifs {
         let kind = rng.below(100);
@@ -776,7 +778,7 @@ pub fn g8_candidate(rng: &mut Rng) -> Option<(ChessBoard, String)> {
                 if cells[p2].is_some() { continue; }
                 if (1..d2).any(|i| { let s = at(kr + dr * i, kf + df * i).unwrap(); cells[s].is_some() }) { continue; }
                 cells[p2] = Some(Piece(slider_for(orth, rng), opp));
-                for i in 1..d2 { reserved[at(kr + dr * i, kf + df * i).unwrap()] = true; }
+                for i in 1..d2 { let s = at(kr + dr * i, kf + df * i).unwrap(); reserved[s] = true; check_line.push(s); }
                 used_dir[d] = true;
                 label.push("chk");
             } else if sub < 8 {
@@ -842,6 +844,24 @@ pub fn g8_candidate(rng: &mut Rng) -> Option<(ChessBoard, String)> {
                 }
             }
             label.push("box");
+        }
+    }
+    // (seventh wave, C04-g) interposition by a DOUBLE pawn push: when a square of a check line lies on the own fourth rank and the
+    // two squares behind it are free, an own pawn is put on its home square (so that positions arise in which the only legal
+    // move is that double push)
+    if !check_line.is_empty() && rng.pct(60) {
+        let (fourth, third, home): (i32, i32, i32) = if own == Color::White { (3, 2, 1) } else { (4, 5, 6) };
+        for &s in check_line.iter() {
+            if (s / 8) as i32 != fourth { continue; }
+            let f = (s % 8) as i32;
+            if let (Some(m), Some(h)) = (at(third, f), at(home, f)) {
+                if cells[s].is_none() && cells[m].is_none() && cells[h].is_none() {
+                    cells[h] = Some(Piece(PieceType::Pawn, own));
+                    reserved[m] = true;
+                    label.push("dbl");
+                    break;
+                }
+            }
         }
     }
     // (sixth wave, C03-f) promotion motif: with probability 25 % an own pawn one step from promotion (so that positions arise
